@@ -2,6 +2,7 @@
 package c06
 
 import (
+	"crypto/rsa"
 	"encoding/base64"
 	"fmt"
 	"net/http/httptest"
@@ -12,6 +13,7 @@ import (
 	"testing"
 	"time"
 
+	"github.com/beevik/etree"
 	"github.com/crewjam/saml"
 	"pgregory.net/rapid"
 
@@ -19,6 +21,7 @@ import (
 	"verif/harness/internal/idpkit"
 	"verif/harness/internal/idpkit/xmlw"
 	"verif/harness/internal/pbt"
+	"verif/harness/internal/refenc"
 	"verif/harness/internal/xgen"
 )
 
@@ -456,6 +459,10 @@ func (c Case) judge(o outcome, md *saml.EntityDescriptor, reqID string, me, othe
 			return fmt.Sprintf("EncryptedAssertion does not open with the SP key (stdlib reference): %v", err)
 		}
 		opened = pt
+		// second, independently written reference (internal/refenc): both openers must agree
+		if pt2, err2 := refOpen(raw, fix.Get(c.SP.KeyName).RSA()); err2 != nil || string(pt2) != string(pt) {
+			return fmt.Sprintf("harness references disagree on the EncryptedAssertion plaintext (refenc: %v, %d vs %d octets)", err2, len(pt2), len(pt))
+		}
 		as, err = xmlw.Parse(pt)
 		if err != nil {
 			return fmt.Sprintf("decrypted assertion is not well-formed: %v\n%s", err, trunc(pt))
@@ -556,6 +563,20 @@ func (c Case) judge(o outcome, md *saml.EntityDescriptor, reqID string, me, othe
 		}
 	}
 	return ""
+}
+
+// refOpen opens the EncryptedAssertion child of the response with internal/refenc.
+func refOpen(response []byte, key *rsa.PrivateKey) ([]byte, error) {
+	d := etree.NewDocument()
+	if err := d.ReadFromBytes(response); err != nil {
+		return nil, err
+	}
+	for _, ch := range d.Root().ChildElements() {
+		if ch.Tag == "EncryptedAssertion" {
+			return refenc.DecryptElement(ch, key)
+		}
+	}
+	return nil, fmt.Errorf("no EncryptedAssertion")
 }
 
 func trunc(b []byte) string {
@@ -741,7 +762,7 @@ var prop = &pbt.Prop[Case]{
 	Reset: fix.Reset,
 	Enums: []pbt.Enum[Case]{{Name: "config-grid", Each: enumConfigs}},
 	Assumptions: []string{
-		"the emitted form is read with golang.org/x/net/html, the decoded XML with an own reader on encoding/xml's tokenizer, EncryptedAssertion is opened with a stdlib-only RSA-OAEP/AES-CBC helper",
+		"the emitted form is read with golang.org/x/net/html, the decoded XML with an own reader on encoding/xml's tokenizer, EncryptedAssertion is opened with a stdlib-only RSA-OAEP/AES-CBC helper and, as cross-check, with internal/refenc",
 		"signatures are verified with goxmldsig (fresh ValidationContext, only the IdP certificate, IdAttribute ID, fake clock at the fixture epoch): the observation point the property names",
 		"instants are generated at millisecond resolution (what the emitted lexical form keeps)",
 		"an error status is a permitted outcome (non-POST endpoint selected); non-vacuity: when an HTTP-POST endpoint was selected the IdP must answer with a form",
